@@ -639,7 +639,10 @@ class CasXmiSerializer:
                             child.text = e
             elif ts.is_instance_of(feature.rangeType, TYPE_NAME_STRING_LIST) and not feature.multipleReferencesAllowed:
                 if value is not None:  # Compare to none to not skip if elements is empty!
-                    for e in self._collect_list_elements(feature.rangeType.name, value):
+                    list_elements = self._collect_list_elements(feature.rangeType.name, value)
+                    if not list_elements:
+                        elem.attrib[feature_name] = ""
+                    for e in list_elements:
                         child = etree.SubElement(elem, feature_name)
                         child.text = e
             elif ts.is_primitive_array(feature.rangeType) and not feature.multipleReferencesAllowed:
